@@ -1,5 +1,7 @@
 import AndaVerif.Proofs.HnswSearch
 import AndaVerif.Proofs.HnswLoad
+import AndaVerif.Proofs.HnswReach
+import AndaVerif.Proofs.HnswWindow
 /-
 C12 — Vector search is sound, distance-ordered (and keeps its recall floor: measured, not proved).
 
@@ -217,6 +219,115 @@ theorem load_prefix_hnsw (D : Durable) (s : Index) (ml : Nat) (hD : DurableWF ml
     rw [hinv.ids_eq, presentIds_of_cov h3, h1]
   · refine ⟨s', hl, hinv, missing_nil_of_cov h.cov, Or.inr ⟨?_, h.meta_old_or_new⟩⟩
     rw [hinv.ids_eq, presentIds_of_cov h.cov, h.ids_new]
+
+/-! ## all histories -/
+
+/-- The hypotheses of `load_prefix_hnsw` (and a live entry point, well-shaped nodes, id set = node
+map keys) hold in EVERY state a history reaches — creation, inserts, removes, complete flushes and
+flushes interrupted at any cut followed by a load, nested arbitrarily. -/
+theorem reachable_inv (ml : Nat) (D : Durable) (s : Index) (h : Reach ml D s) : Inv ml D s :=
+  reach_inv h
+
+/-- Hence, at every reachable point, interrupting the next flush at ANY cut leaves a durable state
+that loads, satisfies `LoadedInv`, drops no id, holds exactly the last committed or exactly the new
+id set — and the loaded state is again reachable, so the statement applies to the flush after the
+recovery as well (crashes during/after recovery). -/
+theorem crash_safe_everywhere (ml : Nat) (D : Durable) (s : Index) (h : Reach ml D s) (cut : Nat) (pick : Nat × Nat) :
+    ∃ s', load (applyWrites D ((wrapperWrites s).take cut)) pick = .ok s' ∧
+      LoadedInv (applyWrites D ((wrapperWrites s).take cut)) s' ∧
+      missingIds (applyWrites D ((wrapperWrites s).take cut)) = [] ∧
+      (s'.ids = idsOf D ∨ s'.ids = s.ids) ∧
+      Reach ml (applyWrites D ((wrapperWrites s).take cut)) s' := by
+  have hi := reach_inv h
+  obtain ⟨s', hl, hinv, hmiss, hids⟩ :=
+    load_prefix_hnsw D s ml hi.dwf hi.cfg hi.nwf hi.cov hi.blobOrDirty hi.live hi.synced cut pick
+  refine ⟨s', hl, hinv, hmiss, ?_, Reach.crash cut pick s' h hl⟩
+  rcases hids with ⟨h1, _⟩ | ⟨h1, _⟩
+  · exact Or.inl h1
+  · exact Or.inr h1
+
+/-- In every reachable state a well-typed finite query is answered soundly and never fails with
+`NotFound`; the ids it returns are ids of the live id set. -/
+theorem reachable_search_sound (ml : Nat) (D : Durable) (s : Index) (h : Reach ml D s)
+    (dist : Nat → Option Nat) (k efSearch : Nat) (finite dimOk : Bool) :
+    (∀ res, searchF32 s.nodes s.entry dist k efSearch finite dimOk = .ok res →
+        Sound s.nodes dist k res) ∧
+    (∀ x, searchF32 s.nodes s.entry dist k efSearch finite dimOk ≠ .error (.notFound x)) :=
+  ⟨fun res hres => search_sound _ _ _ _ _ _ _ _ hres,
+   fun x => live_entry_never_notfound s (reach_inv h).entry dist k efSearch finite dimOk x⟩
+
+/-- non-vacuity: a history with an insert into the empty index, a second insert that rewrites the
+first node, a removal, and a flush cut after its first write -/
+example : ∃ D s, Reach 16 D s ∧ s.ids = [2] ∧ (wrapperWrites s).length = 4 := by
+  refine ⟨_, _, Reach.remove 1 (2, 0) (fun _ _ l => l)
+    (Reach.insert 2 ⟨0, [[1]]⟩ [(1, ⟨0, [[2]]⟩)] (0, 0) true
+      (Reach.insert 1 ⟨0, [[]]⟩ [] (0, 0) true (Reach.create 16 (by decide)) (by constructor <;> decide)
+        (by intro j n h; simp [getNode] at h))
+      (by constructor <;> decide) ?_), by decide, by decide⟩
+  intro j n h
+  simp only [getNode] at h
+  split at h
+  · simp only [Option.some.injEq] at h; subst h; constructor <;> decide
+  · simp at h
+
+/-! ## mutations inside a flush's write window -/
+
+/-- `flush_with` releases the structural lock before it awaits its write callbacks, so inserts and
+removes can land between any two writes and between the last write and the commit.  Whatever the
+interleaving (`steps`: the next snapshot write becomes durable, or a mutation runs — remove, re-insert
+of the same id with other contents, insert of a new id, …), after the commit and ONE further quiescent
+flush every blob is exactly the blob of the current in-memory node, and the ids object is the current
+id set.  Rests on the commit rule of `commit_flush_snapshot` (the snapshot's dirty marks are cleared
+only if the global version did not move; `Gen.HnswOrder.gen_commit_rule`). -/
+theorem flush_window_converges (D : Durable) (s : Index) (h : WInv D s) (steps : List WStep) :
+    let W := windowFlush D s steps
+    (∀ i n, getNode (afterFlush W.2).nodes i = some n →
+        getBlob (applyWrites W.1 (wrapperWrites W.2)).blobs i = some (blobOf i n)) ∧
+    idsOf (applyWrites W.1 (wrapperWrites W.2)) = (afterFlush W.2).ids := by
+  intro W
+  have hw := winv_window h steps
+  have hi : (afterFlush W.2).ids = W.2.ids := by unfold afterFlush; split <;> rfl
+  exact ⟨quiescent_exact hw.cover, by rw [hi]; exact wrapperWrites_ids _ _ hw.synced⟩
+
+/-- The hypothesis is an invariant of every history in which flushes may carry mutations in their
+window (any number of windowed flushes in a row included), and of every state `load_all` accepts
+(so every crash cut of every flush, windowed or not): every in-memory node is persisted exactly or
+marked dirty. -/
+theorem window_histories_inv (D : Durable) (s : Index) (h : ReachW D s) : WInv D s :=
+  reachW_winv h
+
+/-- a quiescent flush at ANY point of such a history makes the durable blobs equal the in-memory nodes -/
+theorem quiescent_flush_exact (D : Durable) (s : Index) (h : ReachW D s) :
+    (∀ i n, getNode (afterFlush s).nodes i = some n →
+        getBlob (applyWrites D (wrapperWrites s)).blobs i = some (blobOf i n)) ∧
+    idsOf (applyWrites D (wrapperWrites s)) = (afterFlush s).ids := by
+  have hw := reachW_winv h
+  have hi : (afterFlush s).ids = s.ids := by unfold afterFlush; split <;> rfl
+  exact ⟨quiescent_exact hw.cover, by rw [hi]; exact wrapperWrites_ids _ _ hw.synced⟩
+
+/-- non-vacuity, and the scenario itself: two nodes flushed; during the next flush's window (after
+its first node write) node 2 is removed and re-inserted with other contents, which also rewrites
+node 1.  The snapshot's stale blob of 2 becomes durable, but 2 stays dirty (the version moved), so
+the quiescent flush rewrites it. -/
+def exW0 : Index :=
+  { nodes := [(2, ⟨0, [[1]]⟩), (1, ⟨0, [[2]]⟩)], ids := [2, 1], entry := (1, 0), dirty := [2, 1], version := 3,
+    savedVersion := 1, maxLayer := 0, maxLayers := 16 }
+
+def exWSteps : List WStep :=
+  [.write, .mutate (.rem 2 (1, 0) (fun _ _ l => l)), .mutate (.ins 2 ⟨0, [[1, 1]]⟩ [(1, ⟨0, [[2, 2]]⟩)] (1, 0) true)]
+
+example : ReachW (createD 16) exW0 :=
+  ReachW.mutate (.ins 2 ⟨0, [[1]]⟩ [(1, ⟨0, [[2]]⟩)] (1, 0) true)
+    (ReachW.mutate (.ins 1 ⟨0, [[]]⟩ [] (0, 0) true) (ReachW.create 16))
+
+/-- after the window: the durable blob of 2 is the STALE one, and 2 (and 1) are still dirty -/
+example : (getBlob (windowFlush (createD 16) exW0 exWSteps).1.blobs 2).map (·.nbrs) = some [[1]] ∧
+    (windowFlush (createD 16) exW0 exWSteps).2.dirty = [2, 1] ∧
+    (getNode (windowFlush (createD 16) exW0 exWSteps).2.nodes 2).map (·.nbrs) = some [[1, 1]] := by decide
+
+/-- after the quiescent flush: the blob of 2 is the current node -/
+example : (getBlob (applyWrites (windowFlush (createD 16) exW0 exWSteps).1
+      (wrapperWrites (windowFlush (createD 16) exW0 exWSteps).2)).blobs 2).map (·.nbrs) = some [[1, 1]] := by decide
 
 /-! ### non-vacuity of the persistence theorems -/
 
